@@ -269,6 +269,7 @@ def target_inputs_not_modified():
                 n += 1
                 why, maybe = may_modify(module, fn, p)
                 ob = sess.check("frame", [], z3.BoolVal(not why), fn.lineno, label=f"{fname}: the caller's `{p}` is not modified (no mutating call, store or hand-over to a modifying function reaches it)")
+                ob.soft = False
                 if why:
                     ob.detail = "; ".join(why[:4])
                     ob.formula = ob.detail
